@@ -164,7 +164,7 @@ func runCase(r *hx.Run, sub uint64, ops []string) {
 			}
 		} else if w := worlds[kind]; w != nil {
 			if p := hx.Safely(func() { line, ans = w.exec(r, f[1:]) }); p != "" {
-				ans = "panic"
+				line, ans = strings.Join(f[1:], " "), "panic"
 				fail(r, kind, f[1], "panic", fmt.Sprintf("%s panicked: %s", op, p))
 			}
 			line = kind + " " + line
